@@ -4,7 +4,7 @@ use crate::*;
 /// Strict grammar: 4 to 6 whitespace-separated fields;
 /// placement = 8 ranks separated by '/', each describing exactly 8 squares with digits 1-8 and
 /// the letters PNBRQKpnbrqk;
-/// side = `w` | `b`; castling = `-` or a non-empty string over `KQkq`;
+/// side = `w` | `b`; castling = `-` or a non-empty duplicate-free string over `KQkq`;
 /// en passant = `-` or `[a-h][36]`; optional halfmove clock and fullmove number = decimal
 /// non-negative integers; nothing after the sixth field.
 pub fn parse_strict(text: &str) -> Result<Pos, String> {
@@ -76,8 +76,9 @@ pub fn parse_strict(text: &str) -> Result<Pos, String> {
                 'q' => 3,
                 _ => return Err(format!("bad castling letter {c:?}")),
             };
-            // (a repeated letter names the same right twice; `classify` treats that spelling
-            // as non-canonical rather than malformed)
+            if pos.castle[i] {
+                return Err(format!("duplicate castling letter {c:?}"));
+            }
             pos.castle[i] = true;
         }
     }
